@@ -100,7 +100,7 @@ def run(ctx):
     # E1 histories with hostile masks: multi-step states (modes, renames, ranks, endings) the line fuzzer
     # rarely builds; only aborts / unexplained closes / ghosts count here
     prof = {"name": "c05-e1", "max_clients": 6, "hostile_masks": True, "stop_props": ["C05"], "invalid_nicks": True,
-            "empty_text": 0.05, "cfg_variants": [{}, {"reg_users": ["cy", "rt", "bob"]}],
+            "empty_text": 0.05, "boundary_rate": 0.35, "cfg_variants": [{}, {"reg_users": ["cy", "rt", "bob"]}],
             "weights": dict(wallops=5, oper=5, umode=8, nick=8, kill=2, kick=6, cmode=14, who=5, whois=5, names=3,
                             invite=4, topic=3, end=4, quit=2)}
     results, cover, shapes = common.e1_check(ctx, res, prof, n_quick=96, n_thorough=1920, steps=150, steps_thorough=300,
